@@ -7,12 +7,20 @@ checkNotEndOfFile(...) and the readSpecifiedToken family establish CHECKED (thei
 summaries are computed from their bodies); ++(this->current), assignments and
 helpers that advance it reset it.  Keyword handlers are called through tables
 with the state of the dispatcher at the indirect call.
+
+Borrow rule (lib/borrow.py): a reference / pointer / string_view bound to an
+element of the token vector through a token iterator is not used after a call
+that may change that vector (direct insert/erase/clear/swap/assignment of the
+'tokens' member, reached through resolved calls on *this; calls through the
+handler tables and std::function reach every registered handler), including
+in catch handlers of a try block containing such a call.
 """
 import os, re
 from common import *
 from cfg import *
 import C54
 from ownership import check_ownership
+import borrow
 
 RULE = ("typestate dataflow on the clang CFG: token iterators (locals, parameters and the member this->current) are "
         "dereferenced only in state CHECKED; helper summaries from bodies; ownership rule")
@@ -57,6 +65,7 @@ def run(tier):
     for _ in range(max(0, n - len(seen))):
         rep.ok("dereference in state CHECKED", sample=False)
     check_ownership(rep, funcs, rel)
+    borrow.rule(rep, funcs, lambda t: bool(C54.ITER.search(t or "")), rel, 5)
     rep.floor("iterator dereference sites", 300)
     rep.assumptions += ["a necessary condition only: termination in bounded time and the other sources of undefined behaviour are not decided",
                         "quick tier: the anchor units; thorough: every unit of mfront/src and mfront-query/src"]
